@@ -247,7 +247,7 @@ def main(tier):
     insts = export(maxlen, True)
     rng.shuffle(insts)
     if tier == "quick":
-        insts = insts[:6000]
+        insts = insts[:28000]     # the whole MaxLen = 2 space (27 783 instances)
     elif len(insts) > 150000:
         insts = insts[:150000]
     chunk = max(50, len(insts) // (C.NPROC * 4))
@@ -296,8 +296,8 @@ def main(tier):
         "rule": "instances = (digraph over 3 defined tasks + 1 undefined, dependency lists of length <= %d in every order, "
                 "optionally one repeated entry, target) enumerated by TLC from Loader.tla%s; built as COND files in 1-2 packages "
                 "with every identifier spelling; non-trivial = at least two edges" % (
-                    maxlen, " (random sample of 6000)" if tier == "quick" else ""),
-        "exhaustive": tier == "thorough" and len(insts) < 150000,
+                    maxlen, " (complete for lists of length <= 2)" if tier == "quick" else ""),
+        "exhaustive": len(insts) < 150000,
     })
     rep.add_sample(rows[0])
     rep.add_sample(rows[1])
